@@ -90,6 +90,60 @@ IsPrefix(a, b) == Len(a) <= Len(b) /\ SubSeq(b, 1, Len(a)) = a
 ErrRowOk(row, exp) == /\ row[3] = 0
                       /\ \E x \in exp \cup {<<row[1], 0, 0>>} : x[1] = row[1] /\ IsPrefix(SubSeq(row, 4, Len(row)), SubSeq(x, 4, Len(x)))
 
+(***************************************************************************)
+(* Part "eh": ERROR HISTORIES (records built with a tiny backtrack limit). *)
+(* When a search fails is not predicted by the model; what is required is  *)
+(* coherence of everything recorded from the SAME regex with what its own  *)
+(* find_iter history shows (ms = the Ok matches before the error, if any): *)
+(*   ci   captures_iter history = find_iter history                        *)
+(*   sp   the Ok pieces of split are RefSplit(ms) -- one more than there   *)
+(*        are matches, the remainder piece comes after the Err item --     *)
+(*        and splitn(lim)'s are RefSplitN(ms, lim)                   (C10) *)
+(*   rp   an Ok result is the text with the first lim matches replaced; a  *)
+(*        result that needs a search that failed is Err; a constant string *)
+(*        and a closure returning it give identical results          (C11) *)
+(***************************************************************************)
+EhSet(rows) == {rows[j] : j \in 1..Len(rows)}
+RECURSIVE PairsOf(_, _)
+PairsOf(sq, j) == IF j + 1 > Len(sq) THEN <<>> ELSE << <<sq[j], sq[j + 1]>> >> \o PairsOf(sq, j + 2)
+RECURSIVE FlatPairs(_, _)
+FlatPairs(ps, j) == IF j > Len(ps) THEN <<>> ELSE <<ps[j][1], ps[j][2]>> \o FlatPairs(ps, j + 1)
+EhOut(t, m, rid) == CASE rid \in {0, 3} -> SubSeq(t, m[1] + 1, m[2]) [] rid \in {1, 7} -> <<"x">> [] rid = 2 -> <<"$", "1">> [] rid = 6 -> <<"$">>
+\* ix = the record's rows grouped by text (built once per record)
+EhRowsOf(rows, k) == {rows[j] : j \in {i \in 1..Len(rows) : rows[i][1] = k}}
+\* (TLCEval: a function value is lazy in TLC -- without it every application would filter the whole row list again)
+EhIndex(c, K) == [fi |-> TLCEval([k \in K |-> EhRowsOf(c.fi, k)]), ci |-> TLCEval([k \in K |-> EhRowsOf(c.ci, k)]),
+                  sp |-> TLCEval([k \in K |-> EhRowsOf(c.sp, k)]), spn |-> TLCEval([k \in K |-> EhRowsOf(c.spn, k)]),
+                  rp |-> TLCEval([k \in K |-> {c.rp[j] : j \in {i \in 1..Len(c.rp) : c.rp[i].k = k}}])]
+EhTextBad(ix, k) ==
+   LET t == Texts[k]  N == ByteLen(t)
+       fr == CHOOSE r \in ix.fi[k] : TRUE
+       errd == fr[2] = 1
+       ms == PairsOf(SubSeq(fr, 4, Len(fr)), 1)                       \* byte spans
+       msc == [j \in 1..Len(ms) |-> <<CharPos(t, ms[j][1]), CharPos(t, ms[j][2])>>]
+       nm == Len(ms)
+       ciBad == ix.ci[k] # {fr}
+       spRows == ix.sp[k]
+       spBad == \/ Cardinality(spRows) # 1
+                \/ \E r \in spRows : \/ r[2] # fr[2] \/ r[3] # (IF errd THEN 1 ELSE 0)
+                                      \/ SubSeq(r, 4, Len(r)) # FlatPairs(RefSplit(ms, N), 1)
+       spnBad == \E lim \in 0..5 :
+                    LET RR == {r \in ix.spn[k] : r[2] = lim} IN
+                    \/ Cardinality(RR) # 1
+                    \/ \E r \in RR : r[3] \notin {0, 1} \/ SubSeq(r, 5, Len(r)) # FlatPairs(RefSplitN(ms, N, lim), 1)
+       RpAt(lim, rid) == LET S == {e \in ix.rp[k] : e.lim = lim /\ e.rid = rid}
+                      IN IF S = {} THEN [end |-> 0, res |-> t] ELSE LET e == CHOOSE e \in S : TRUE IN [end |-> e.end, res |-> e.res]
+       MustErr(lim) == errd /\ (lim = 0 \/ nm < lim)
+       Want(lim, rid) == RefReplace(t, msc, [j \in 1..nm |-> EhOut(t, msc[j], rid)], lim, 1)
+       rpBad == \/ \E lim \in 0..3 : \E rid \in 0..7 :
+                      LET e == RpAt(lim, rid) IN
+                      \/ e.end \notin {0, 1}
+                      \/ (MustErr(lim) /\ e.end # 1)
+                      \/ (~errd /\ e.end # 0)
+                      \/ (e.end = 0 /\ rid \in {0, 1, 2, 3, 6, 7} /\ e.res # Want(lim, rid))
+                \/ \E lim \in 0..3 : RpAt(lim, 1) # RpAt(lim, 7)
+   IN (IF ciBad THEN {"ci"} ELSE {}) \cup (IF spBad THEN {"split"} ELSE {}) \cup (IF spnBad THEN {"splitn"} ELSE {}) \cup (IF rpBad THEN {"replace"} ELSE {})
+
 VARIABLES l, nok, nrej, nexcl, ncerr, nitems, npos, nerrh
 vars == <<l, nok, nrej, nexcl, ncerr, nitems, npos, nerrh>>
 Init == l = 1 /\ nok = 0 /\ nrej = 0 /\ nexcl = 0 /\ ncerr = 0 /\ nitems = 0 /\ npos = 0 /\ nerrh = 0
@@ -152,6 +206,12 @@ Verdict(c) ==   \* <<ok?, expected-not-logged, logged-not-expected, #expected ro
               bad == badIter \cup badSpn \cup badCells \cup badCells0 \cup badRows
           IN <<bad = {} /\ badRp = {}, <<>>, IF bad # {} THEN Pick(bad) ELSE IF badRp # {} THEN <<"replace panicked">> ELSE <<>>,
                Cardinality(SetOf(c.rows)) + Cardinality(SetOf(c.fi)), 0>>
+     [] Part = "eh" ->
+          LET K == {r[1] : r \in SetOf(c.fi)}
+              ix == TLCEval(EhIndex(c, K))
+              bad == UNION { LET b == TLCEval(EhTextBad(ix, k)) IN {<<k, w>> : w \in b} : k \in K }
+              errs == {r \in SetOf(c.fi) : r[2] = 1}
+          IN <<bad = {}, <<>>, Pick(bad), Cardinality(K), Cardinality(errs)>>
      [] Part = "sp" ->
           LET exp == TLCEval(ExpectedSP(c.ast, c.ng))  log == LoggedSP(c)
           IN <<exp = log, Pick(exp \ log), Pick(log \ exp), Cardinality(exp), 0>>
